@@ -23,6 +23,25 @@ grnd(void)
     return (GS >> 8) / 16777216.0f;
 }
 
+/* 32-bit words after the byte-order magic go through s3_put, which keeps the file checksum of s3file.c */
+static uint32_t S3SUM;
+static void
+s3_put(FILE *f, const void *words, int n)
+{
+    const uint32_t *w = (const uint32_t *)words;
+    int i;
+    for (i = 0; i < n; i++)
+        S3SUM = (S3SUM << 20 | S3SUM >> 12) + w[i];
+    fwrite(words, 4, n, f);
+}
+
+static void
+s3_close(FILE *f)
+{
+    fwrite(&S3SUM, 4, 1, f);
+    fclose(f);
+}
+
 static FILE *
 s3_open(const char *dir, const char *name)
 {
@@ -33,7 +52,8 @@ s3_open(const char *dir, const char *name)
     f = fopen(p, "wb");
     if (!f)
         return NULL;
-    fputs("s3\nversion 1.0\nendhdr\n", f);
+    fputs("s3\nversion 1.0\nchksum0 yes\nendhdr\n", f);
+    S3SUM = 0;
     fwrite(&magic, 4, 1, f);
     return f;
 }
@@ -70,26 +90,24 @@ gen_model(const char *dir, const char *scorer)
             if (!f)
                 return -1;
             hdr[0] = n_mgau, hdr[1] = n_feat, hdr[2] = K, hdr[3] = hdr[4] = hdr[5] = 13, hdr[6] = n;
-            fwrite(hdr, 4, 7, f);
+            s3_put(f, hdr, 7);
             for (j = 0; j < n; j++) {
                 float v = which ? 0.2f + 3.0f * grnd() : (j % 13 == 0 && j < K * 13 ? 12.0f : 3.0f) * (2.0f * grnd() - 1.0f);
-                fwrite(&v, 4, 1, f);
+                s3_put(f, &v, 1);
             }
-            fwrite(&n, 4, 1, f); /* checksum slot (not verified: chksum0 no) */
-            fclose(f);
+            s3_close(f);
         }
     f = s3_open(dir, "mixture_weights");
     if (!f)
         return -1;
     hdr[0] = n_sen, hdr[1] = n_feat, hdr[2] = K, hdr[3] = n_sen * n_feat * K;
-    fwrite(hdr, 4, 4, f);
+    s3_put(f, hdr, 4);
     for (i = 0; i < hdr[3]; i++) {
         float v = grnd();
         v = v * v * v + 1e-5f;
-        fwrite(&v, 4, 1, f);
+        s3_put(f, &v, 1);
     }
-    fwrite(hdr, 4, 1, f);
-    fclose(f);
+    s3_close(f);
     return 0;
 }
 
